@@ -57,6 +57,15 @@ Theorem C17_contains_is_gamma : forall c s, contains c s = true <->
 Proof. exact contains_is_gamma. Qed.
 Print Assumptions C17_contains_is_gamma.
 
+(* B1'. The transcribed add_vertex adds exactly the new vertex (vertex numbering well formed: no edge touches a slot that
+   was not handed out yet). *)
+Theorem C17_add_vertex_spec : forall (c : cplx) (t : simplex), wf_slots c ->
+  contains (add_vertex c) t = contains c t || seqb t [slots c].
+Proof. exact add_vertex_spec. Qed.
+Print Assumptions C17_add_vertex_spec.
+Example C17_wf_slots_instance : wf_slots hollow_tetrahedron.
+Proof. exact wf_slots_instance. Qed.
+
 (* B2. The transcribed add_blocker deletes exactly the cofaces of the blocker, in every state. *)
 Theorem C17_add_blocker_spec : forall (c : cplx) (sigma t : simplex), (3 <= length sigma)%nat -> NoDup sigma ->
   contains (add_blocker c sigma) t = contains c t && negb (ssub sigma t).
